@@ -58,6 +58,7 @@ def _work1(item):
     idx, smt2, must, use_cvc5, both, hinted = item[:6]
     relaxed = item[6] if len(item) > 6 else None
     qf = item[7] if len(item) > 7 else None
+    sliced = item[8] if len(item) > 8 else None
     if relaxed is not None:
         r, t, _ = _run_z3(relaxed, 3000, False)
         if r == 'unsat':
@@ -82,6 +83,12 @@ def _work1(item):
         r0, t_pre, _ = _run_z3(smt2, min(Z3_TIMEOUT_MS, 6000), False, ematch_only=True)
         if r0 == 'unsat':
             return idx, 'unsat', t_pre, None, 'z3(e-matching)'
+    if must == 'valid' and sliced is not None:
+        # the premises in the goal's cone of influence only (a subset: unsat is definitive, anything else is not)
+        r0, t0_, _ = _run_z3(sliced, 2 * Z3_TIMEOUT_MS, False, ematch_only=True)
+        t_pre += t0_
+        if r0 == 'unsat':
+            return idx, 'unsat', t_pre, None, 'z3(premises in the cone of influence)'
     r, t, model = _run_z3(smt2, Z3_TIMEOUT_MS, True)
     t += t_pre
     backend = 'z3'
@@ -136,7 +143,7 @@ def discharge(obs, jobs=None, cross=False):
         try:
             ob.freeze()
             fz = ob.frozen
-            items.append((i, fz['main'], ob.must, True, cross, fz.get('hinted'), fz.get('relaxed'), fz.get('qf')))
+            items.append((i, fz['main'], ob.must, True, cross, fz.get('hinted'), fz.get('relaxed'), fz.get('qf'), fz.get('sliced')))
         except Exception as e:     # noqa
             ob.status = 'unknown'
             ob.detail = 'serialisation failed: %s' % e
